@@ -3,6 +3,7 @@ mod core;
 mod proj;
 
 mod c0235;
+mod c04;
 mod c06;
 mod cmodel;
 mod oracle;
@@ -159,6 +160,7 @@ fn main() {
     let rep = match prop.as_str() {
         "C02" => c0235::run_c02(&ctx),
         "C03" => c0235::run_c03(&ctx),
+        "C04" => c04::run(&ctx),
         "C05" => c0235::run_c05(&ctx),
         "C06" => c06::run(&ctx),
         "C08" => c08::run(&ctx),
